@@ -286,6 +286,10 @@ func genPDU(l PDULayout, sb *strings.Builder) {
 	for _, kf := range typeKFs(l) {
 		w("	vKnown(%q, %q, %s)", kf.ID, kf.Pattern, kf.Excuse)
 	}
+	if l.Pkg == "smgp30" && hasKindW(l, "fb", 10) {
+		// the decoded PDU holds the hex-expanded id and cannot be re-encoded (same known finding as the MsgID comparison)
+		w("	vKnown(\"KF-smgp-msgid-raw-on-encode-hex-on-decode\", %q, true)", lab("C11", "canonical.re-encode-*"))
+	}
 	w("	if prop == 12 { vPoolStale(8) }")
 	w("	b, err := p.IEncode()")
 	w("	if ntlv < 2 { vObserve(\"bytes\", b) } else { vObserve(\"len\", len(b)) }")
@@ -355,6 +359,11 @@ func genPDU(l PDULayout, sb *strings.Builder) {
 	w("		// the encoder's bytes belong to the caller: a later encode (which may get the same pooled buffer) must not change them")
 	w("		other := new(%s)", T)
 	w("		_, _ = other.IEncode()")
+	if l.Hdr != "none" {
+		w("		// ... and so must a later encode of the very same value after it was changed")
+		w("		p.SetSequenceID(p.GetSequenceID() ^ 0x5a5a5a5a)")
+		w("		_, _ = p.IEncode()")
+	}
 	// (compared with the independently assembled image, not with a copy of b: in the model a released
 	// pooled buffer is overwritten at once. The length word is compared with len(b) instead of the
 	// image's, so that the one type whose body differs from the specification - SMGP ActiveTestResp -
